@@ -333,6 +333,27 @@ class C04(Check):
                 for tail in (b"", b"\x00" * 64):
                     add("reser %s %s %s" % (sz, T, hx(leb(v) + tail)), "caplen-" + T)
 
+        # ---- (2b) two-dimensional shapes: the MLSAG matrix of a RingCT "Full" transaction has (ring size of input 0) rows of
+        # (inputs + 1) columns, both backed by real bytes of the prefix; the input ends before (or shortly after) the matrix
+        # begins.  A decoder that reserves rows x columns at once takes memory quadratic in the input length here
+        for (n_in, ring0, rct_t) in ((3000, 3000, 1), (2000, 4500, 1), (3000, 3000, 2), (2500, 2500, 5)):
+            ins = b""
+            for i in range(n_in):
+                r_i = ring0 if i == 0 else 1
+                ins += b"\x02\x00" + leb(r_i) + b"\x01" * r_i + bytes([i & 0xff]) * 32
+            pre = b"\x02\x00" + leb(n_in) + ins + b"\x01\x00\x02" + b"\x09" * 32 + b"\x00"
+            base = bytes([rct_t]) + b"\x00"
+            if rct_t == 2:
+                base += b"\x0a" * (32 * n_in)                       # pseudo outs
+            base += (b"\x0b" * 64 if rct_t in (1, 2) else b"\x0b" * 8) + b"\x0c" * 32
+            if rct_t in (1, 2):
+                prun = b"\x0d" * 6176                                # one RangeSig
+            else:
+                prun = b"\x01" + b"\x0e" * 192 + b"\x00" + b"\x00" + b"\x0e" * 96   # one Bulletproof with empty L, R
+            for extra in (0, 1, 32, 33 * 32):
+                po("tx", pre + base + prun + b"\x0f" * extra, "matrix-shaped-reservation")
+            po("block", hdr + pre + base + prun, "matrix-shaped-reservation")
+
         # ---- (3) truncation
         for k, (T, b, org) in enumerate(seeds):
             budget = (80 if org == "corpus" else 40) * (4 if thorough else 1)
